@@ -548,6 +548,12 @@ let make_m1 (params : string list) : machine =
                 match x with XPair (_, v) -> show_out v | _ -> "err"
               end
             end
+        | [ "isempty" ] ->
+            (match snd (m_step !st (ORead (TWorking, RSize))) with XInt z -> if int_of_z z = 0 then "t" else "f" | _ -> "err")
+        | [ "fastflags" ] ->
+            (* IsFastCacheEnabled / IsUpgradeable as FastLife defines them *)
+            if is_legacy then "*"
+            else Printf.sprintf "ff:%b,%b" ((not !fs.skipf || true) && fast_enabled !fs !fs.ms.version) (upgradeable !fs)
         | [ "davail" ] ->
             (* a tree object that has cached nothing discovers the range from the stored keys
                (Discover.v): exact also when a stale root key is present *)
